@@ -96,4 +96,22 @@ CHECKS["C16"] = {
     "text": "C16: exactly one terminal action succeeds, refused calls raise and touch nothing, category and budget refusals, callbacks in registration order with the store at the latest set_* position, rest of the body not run.",
     "note": "scripts of 3 (quick) / 4 (thorough) calls; recording in-memory broker",
 }
+CHECKS["C11"] = {
+    "engine": "symx+vloop",
+    "technique": "solver-enumerated router configurations (registrations over names/queues with overrides, inclusion, later registrations) compared with a union/last-wins oracle; Worker.run() on a virtual-time loop over solver-enumerated mixes of own and foreign messages in a shared queue",
+    "text": "C11: actors and topics_by_queue are exactly the union with the last registration winning and no aliasing; foreign messages are never executed, disposed or altered and stay available; own jobs run exactly their actor once.",
+    "note": "in-memory broker; Redis prefix filter exactness is proved under C07; RabbitMQ reject-requeue loop is server behaviour; discrete space (enumeration)",
+}
+CHECKS["C17"] = {
+    "engine": "symx+vloop+fakes",
+    "technique": "solver-enumerated (operation x call style x subscriber kind x second connection) combinations executed on the real wrappers and compared differentially with the same operation without subscribers; nested and failure/cancel sequences",
+    "text": "C17: one before and (on success) one after signal with by-name arguments/result to the owning connection only, nothing for nested operations, result/exception/state unchanged by subscribers.",
+    "note": "13 wrapped operations on in-memory brokers (RabbitMQ requeue on the fake channel for nesting); discrete space",
+}
+CHECKS["C18"] = {
+    "engine": "symx+vloop",
+    "technique": "symbolic execution (z3): provider constants are symbolic integers, the actor's received keyword arguments are compared as SMT terms with an independent nested evaluation of the dependency graph; graph shape, sync/async flags, overrides and faults are solver-enumerated",
+    "text": "C18: every dependency parameter equals its provider's value on its own resolved sub-dependencies for all provider constants; overrides replace everywhere; a provider failure follows the retry rules; unsupported declarations are rejected at declaration.",
+    "note": "six graph shapes (depth <= 3, fan-out <= 2, shared node), up to 2 overrides; thread pools inline",
+}
 NOT_APPLICABLE = {}
